@@ -88,10 +88,10 @@ pub enum Op {
     Clone(usize, usize),
     CloneEmpty(usize, usize),
     CloneEmptyIn(usize, usize, Bk),
-    Reserve(usize, usize),
-    ReserveExact(usize, usize),
-    ShrinkToFit(usize),
-    ShrinkTo(usize, usize),
+    Reserve(usize, usize, bool),
+    ReserveExact(usize, usize, bool),
+    ShrinkToFit(usize, bool),
+    ShrinkTo(usize, usize, bool),
     Views(usize),
     SpareWrite(Api, usize, usize),
     SetLen(usize, usize),
@@ -291,10 +291,15 @@ pub fn parse_op(t: &[&str]) -> Op {
         ["clone", v, d] => Op::Clone(u(v), u(d)),
         ["clone_empty", v, d] => Op::CloneEmpty(u(v), u(d)),
         ["clone_empty_in", v, d, bk] => Op::CloneEmptyIn(u(v), u(d), parse_bk(bk)),
-        ["reserve", v, n] => Op::Reserve(u(v), u(n)),
-        ["reserve_exact", v, n] => Op::ReserveExact(u(v), u(n)),
-        ["shrink_to_fit", v] => Op::ShrinkToFit(u(v)),
-        ["shrink_to", v, n] => Op::ShrinkTo(u(v), u(n)),
+        ["reserve", v, n] => Op::Reserve(u(v), u(n), false),
+        ["reserve_exact", v, n] => Op::ReserveExact(u(v), u(n), false),
+        ["shrink_to_fit", v] => Op::ShrinkToFit(u(v), false),
+        ["shrink_to", v, n] => Op::ShrinkTo(u(v), u(n), false),
+        // the same through the typed view
+        ["treserve", v, n] => Op::Reserve(u(v), u(n), true),
+        ["treserve_exact", v, n] => Op::ReserveExact(u(v), u(n), true),
+        ["tshrink_to_fit", v] => Op::ShrinkToFit(u(v), true),
+        ["tshrink_to", v, n] => Op::ShrinkTo(u(v), u(n), true),
         ["views", v] => Op::Views(u(v)),
         ["spare_write", a, v, k] => Op::SpareWrite(parse_api(a), u(v), u(k)),
         ["set_len", v, n] => Op::SetLen(u(v), u(n)),
